@@ -95,6 +95,8 @@ struct Support
   std::vector<double> dx, x0;
   int S = 0;
   std::vector<double> xy; // S * ndim, site-major
+  std::vector<char> active; // grid with a selection: 1 = active node (empty: no selection). Masked nodes take no part in any statistic
+  bool isActive(int s) const { return active.empty() || active[s]; }
   double coord(int s, int d) const { return xy[s * ndim + d]; }
 };
 static void gridSupport(Support& sp, int ndim, std::vector<int> nx, double dx)
@@ -119,7 +121,17 @@ static void gridSupport(Support& sp, int ndim, std::vector<int> nx, double dx)
 }
 static std::unique_ptr<Db> buildDb(const Support& sp)
 {
-  if (sp.grid) return std::unique_ptr<Db>(DbGrid::create(VectorInt(sp.nx), VectorDouble(sp.dx), VectorDouble(sp.x0)));
+  if (sp.grid)
+  {
+    std::unique_ptr<Db> g(DbGrid::create(VectorInt(sp.nx), VectorDouble(sp.dx), VectorDouble(sp.x0)));
+    if (!sp.active.empty())
+    {
+      VectorDouble sel(sp.S);
+      for (int s = 0; s < sp.S; s++) sel[s] = sp.active[s] ? 1. : 0.;
+      g->addColumns(sel, "sel", ELoc::SEL);
+    }
+    return g;
+  }
   std::vector<double> tab(sp.S * sp.ndim);
   for (int s = 0; s < sp.S; s++)
     for (int d = 0; d < sp.ndim; d++) tab[d * sp.S + s] = sp.coord(s, d);
@@ -214,6 +226,15 @@ static void finishStat(Stat& st, const FullCov& C, int S)
   if (st.cls == "mean")
   {
     double v = 0;
+    if (!st.a.empty())
+    { // mean over the listed (active) sites only
+      for (int a : st.a)
+        for (int b : st.a) v += C(st.iv * S + a, st.iv * S + b);
+      st.E  = 0;
+      st.V1 = v / ((double)P * P);
+      st.scale = std::sqrt(C(st.iv * S, st.iv * S));
+      return;
+    }
     for (int a = 0; a < S; a++)
       for (int b = 0; b < S; b++) v += C(st.iv * S + a, st.iv * S + b);
     st.E     = 0;
@@ -239,6 +260,12 @@ static void accumulate(std::vector<Stat>& stats, const std::vector<std::vector<d
     if (st.cls == "mean")
     {
       double s = 0;
+      if (!st.a.empty())
+      {
+        for (int a : st.a) s += z[st.iv][a];
+        st.sum += s / (double)st.a.size();
+        continue;
+      }
       for (int a = 0; a < S; a++) s += z[st.iv][a];
       st.sum += s / S;
       continue;
@@ -250,8 +277,9 @@ static void accumulate(std::vector<Stat>& stats, const std::vector<std::vector<d
   }
 }
 static void judge(Ctx& c, std::vector<Stat>& stats, int sim, const std::string& keyBase, int R, bool meanNonZero,
-                  const std::string& foldKey = "")
+                  const std::string& foldKey = "", double allowOverride = -1.)
 {
+  const double allowCov = allowOverride >= 0 ? allowOverride : ALLOW[sim];
   // means first: a covariance centred on a wrong mean is contaminated by the square of the mean error, which would only
   // repeat the mean finding under other keys; in that case the covariance statistics are skipped (and counted)
   bool meanBad = false;
@@ -266,7 +294,7 @@ static void judge(Ctx& c, std::vector<Stat>& stats, int sim, const std::string& 
     if (meanBad && st.cls != "mean") { c.skip("covariance:mean-failed"); continue; }
     double T = st.sum / R, sd = std::sqrt(std::max(st.V1, 0.) / R), bound;
     if (st.cls == "mean") bound = ZLEVEL * sd + ALLOW_MEAN[sim] * st.scale;
-    else bound = ZLEVEL * sd * ((st.psd ? 1. : std::sqrt(2.)) + ZLEVEL / std::sqrt(2. * R)) + ALLOW[sim] * st.scale;
+    else bound = ZLEVEL * sd * ((st.psd ? 1. : std::sqrt(2.)) + ZLEVEL / std::sqrt(2. * R)) + allowCov * st.scale;
     double err = std::fabs(T - st.E);
     bool ok    = std::isfinite(T) && err <= bound;
     c.check(st.cls == "mean" ? "mean" : st.cls == "variance" ? "variance" : (st.iv == st.jv ? "covariance" : "cross-covariance"),
@@ -276,7 +304,7 @@ static void judge(Ctx& c, std::vector<Stat>& stats, int sim, const std::string& 
             keyBase + ":" + (st.cls == "mean" ? std::string("mean") + (meanNonZero ? ":model-mean-nonzero" : ":model-mean-zero")
                              : st.cls == "variance" ? "variance" : st.iv == st.jv ? "covariance" : "cross-covariance"), ok, std::isfinite(T) ? err : INFINITY, bound,
             ok ? "" : fmt("[%s] %s: ensemble %.6g model %.6g, bound %.4g (z*SD part %.4g, allowance %.4g), R=%d", st.cls.c_str(), st.label.c_str(), T, st.E, bound,
-                          bound - (st.cls == "mean" ? ALLOW_MEAN[sim] : ALLOW[sim]) * st.scale, (st.cls == "mean" ? ALLOW_MEAN[sim] : ALLOW[sim]) * st.scale, R));
+                          bound - (st.cls == "mean" ? ALLOW_MEAN[sim] : allowCov) * st.scale, (st.cls == "mean" ? ALLOW_MEAN[sim] : allowCov) * st.scale, R));
   }
 }
 
@@ -298,7 +326,7 @@ static void gridPairs(const Support& sp, const std::vector<int>& h, std::vector<
       t += i * mul;
       mul *= sp.nx[d];
     }
-    if (in) { a.push_back(s); b.push_back(t); }
+    if (in && sp.isActive(s) && sp.isActive(t)) { a.push_back(s); b.push_back(t); }
   }
   if ((int)a.size() > maxP)
   {
@@ -408,6 +436,8 @@ static std::vector<Stat> gridStats(Rng& r, const Case& cs, const FullCov& C)
     m.cls = "mean";
     m.iv = m.jv = iv;
     m.label     = fmt("mean of variable %d", iv + 1);
+    if (!cs.sp.active.empty())
+      for (int s = 0; s < S; s++) if (cs.sp.active[s]) m.a.push_back(s);
     finishStat(m, C, S);
     stats.push_back(m);
   }
@@ -416,7 +446,8 @@ static std::vector<Stat> gridStats(Rng& r, const Case& cs, const FullCov& C)
     std::vector<int> a, b;
     gridPairs(cs.sp, cs.lags[l], a, b, r, 256);
     if (a.size() < 20) continue;
-    bool zero = cs.lags[l][0] == 0 && cs.lags[l][1] == 0;
+    bool zero = true;
+    for (int hd : cs.lags[l]) if (hd != 0) zero = false;
     for (int iv = 0; iv < nvar; iv++)
       for (int jv = 0; jv < nvar; jv++)
       {
@@ -429,7 +460,8 @@ static std::vector<Stat> gridStats(Rng& r, const Case& cs, const FullCov& C)
         if (iv == jv) st.cls = cs.lagCls[l];
         else st.cls = zero ? "cross0" : "cross-" + cs.lagCls[l].substr(4);
         st.psd   = zero && iv == jv;
-        st.label = fmt("C%d%d(h=(%d,%d))", iv + 1, jv + 1, cs.lags[l][0], cs.lags[l][1]);
+        st.label = cs.lags[l].size() == 3 ? fmt("C%d%d(h=(%d,%d,%d))", iv + 1, jv + 1, cs.lags[l][0], cs.lags[l][1], cs.lags[l][2])
+                                          : fmt("C%d%d(h=(%d,%d))", iv + 1, jv + 1, cs.lags[l][0], cs.lags[l][1]);
         finishStat(st, C, S);
         stats.push_back(st);
       }
@@ -637,6 +669,17 @@ static void fieldCase(Rng& r, Ctx& c, int sim, int variant)
     cs.R      = th ? 6000 : 1200;
     cs.batch  = 20;
     cs.sig += fmt(":nbt=%d", cs.nbtuba);
+    // two of the five grid slots of a block carry a selection (about a quarter of the nodes masked, drawn from a stream of
+    // its own so that the other draws of the case are unchanged): the statistics then use the active nodes only
+    int slot = (int)((c.icase * 5) % 16);
+    if (slot == 1 || slot == 3)
+    {
+      Rng rm(c.seed, "C14mask", (uint64_t)c.icase);
+      cs.sp.active.assign(cs.sp.S, 1);
+      for (int s = 0; s < cs.sp.S; s++) if (rm.coin(0.25)) cs.sp.active[s] = 0;
+      cs.sig += ":masked";
+      c.probe("simtub-grid-masked");
+    }
   }
   else if (sim == S_TUB)
   {
@@ -672,11 +715,30 @@ static void fieldCase(Rng& r, Ctx& c, int sim, int variant)
     // variant 0: square grid, isotropic short-range model (the configuration where the method error stays within the
     // allowance); variant 1: anisotropic model on a square grid; variant 2: isotropic model on a non-square grid
     int n = th ? 20 : 16;
+    if (variant == 3)
+    {
+      // 3-D: cubic grid, isotropic short-range model (the 3-D Hermitian symmetry of the spectral array, _defineSym3)
+      int n3 = th ? 12 : 10;
+      defineDefaultSpace(ESpaceType::RN, 3);
+      gridSupport(cs.sp, 3, {n3, n3, n3}, 1.);
+      cs.model.ndim  = 3;
+      cs.model.nvar  = 1;
+      double sill    = r.coin(0.5) ? r.loguni(0.03, 0.2) : r.loguni(8., 50.);
+      std::string t3 = r.pick(std::vector<std::string>{"SPHERICAL", "EXPONENTIAL", "CUBIC", "GAUSSIAN"});
+      cs.model.covs.push_back(covOf(r, t3, 3, 1, r.uni(0.14, 0.19) * n3 * (t3 == "EXPONENTIAL" || t3 == "GAUSSIAN" ? 0.6 : 1.), 1., 0., sill, 0.));
+      cs.model.means.assign(1, 0.);
+      cs.lags   = {{0, 0, 0}, {1, 0, 0}, {0, 1, 0}, {0, 0, 1}, {1, 1, 0}, {1, 0, 1}, {0, 1, 1}};
+      cs.lagCls = {"variance", "cov-major", "cov-major", "cov-major", "cov-other", "cov-other", "cov-other"};
+      cs.sig    = fmt("simfft:grid3d-%d:c0=%s:sill%s", n3, t3.c_str(), sill < 1 ? "<1" : ">1");
+    }
+    else
+    {
     if (variant == 2) gridSupport(cs.sp, 2, {n + 4, n - 3}, 1.);
     else gridSupport(cs.sp, 2, {n, n}, 1.);
     drawGridModel(r, cs, {"SPHERICAL", "EXPONENTIAL", "GAUSSIAN", "CUBIC", "MATERN"}, 1, false, variant == 1 ? 1 : 0, 0., 0,
                   r.uni(0.125, 0.17) * n);
-    support       = variant == 2 ? "grid-nonsquare" : variant == 1 ? "grid-square:aniso" : "grid-square:iso";
+    }
+    support       = variant == 3 ? "grid-cubic-3d:iso" : variant == 2 ? "grid-nonsquare" : variant == 1 ? "grid-square:aniso" : "grid-square:iso";
     fftClass      = variant == 2 ? "grid-nonsquare" : variant == 1 ? "anisotropy-ignored" : "";
     meanProbe     = variant == 0;
     cs.fftAlias   = r.coin(0.7);
@@ -860,7 +922,8 @@ static void fieldCase(Rng& r, Ctx& c, int sim, int variant)
   if (sim == S_SPECTRAL && specClass != "reference") foldKey = "C14:spectral:" + specClass;
   if (sim == S_SPECTRAL && specClass == "reference") keyBase = "C14:spectral:reference";
   if (sim == S_FFT && !fftClass.empty()) foldKey = "C14:simfft:" + fftClass;
-  judge(c, stats, sim, keyBase, cs.R, meanNonZero, foldKey);
+  // 3-D FFT on a cubic grid with a short isotropic range: measured method error < 0.01 sill on the unchanged tree, allowance 0.03
+  judge(c, stats, sim, keyBase, cs.R, meanNonZero, foldKey, (sim == S_FFT && variant == 3) ? 0.03 : -1.);
 
   // the model mean: only the turning bands are exercised with a non-zero mean in the main run; for the other simulators a
   // short extra ensemble with the same model and a mean far from 0 checks the ensemble mean alone
@@ -1228,7 +1291,7 @@ static void run_case(Rng& r, Ctx& c)
     case 5: fieldCase(r, c, S_TUB, 1); break;
     case 6: fieldCase(r, c, S_TUB, (c.icase / 16) % 2 ? 2 : 3); break;
     case 7: fieldCase(r, c, S_FFT, 0); break;
-    case 8: fieldCase(r, c, S_FFT, (c.icase / 16) % 2 ? 1 : 2); break;
+    case 8: { int b3 = (int)((c.icase / 16) % 3); fieldCase(r, c, S_FFT, b3 == 0 ? 2 : b3 == 1 ? 1 : 3); break; }
     case 9: fieldCase(r, c, S_SPECTRAL, (int)((c.icase / 16) % 4)); break;
     case 10: fieldCase(r, c, S_CHOL, (int)((c.icase / 16) % 5)); break;
     case 11: fieldCase(r, c, S_SPDE, 0); break;
